@@ -37,6 +37,23 @@ Lemma offset_along_field_frame : forall (x : Rvec) (F : Rfield) (v : Rvec), unit
   to_local Ro x (F x) (offset_along_field Ro x F v) = v.
 Proof. intros. unfold offset_along_field. apply offset_along_frame; assumption. Qed.
 
+(* ---------------------------------------------------------------- apparently facing (repaired, F21) *)
+(* if the line of sight from P to the object, expressed in the parent frame, has azimuth al (rho = its planar
+   length), then with yaw := al + H the object's planar forward axis in the parent frame, (-sin yaw, cos yaw),
+   is that line of sight turned by H: the object has heading H with respect to the line of sight, whatever the
+   parent orientation (and `apparently facing 0 from P` = `facing away from P`) *)
+Lemma apparently_facing_spec : forall (parent : Rquat) (pos p : Rvec) (h al : Rang) (rho : R),
+  unita h -> unita al ->
+  xy (sight_local Ro parent pos p true) = (rho * - asin Ro al, rho * acos Ro al) ->
+  let yaw := aadd Ro al h in
+  turn_res Ro h (xy (sight_local Ro parent pos p true)) (- asin Ro yaw, acos Ro yaw) = 0 /\
+  turn_dot Ro h (xy (sight_local Ro parent pos p true)) (- asin Ro yaw, acos Ro yaw) = rho /\
+  forward Ro (orientation_of Ro parent yaw (a0 Ro) (a0 Ro)) = rotate Ro parent (- asin Ro yaw, acos Ro yaw, 0).
+Proof. intros parent pos p h al rho Hh Ha Hd yaw. split; [|split]; [| |apply facing_toward_forward].
+  - rewrite Hd. unfold yaw. da h; da al. unfold unita in *. revert Hh Ha. unfall. intros Hh Ha. nsatz.
+  - rewrite Hd. unfold yaw. da h; da al. unfold unita in *. revert Hh Ha. unfall. intros Hh Ha. nsatz.
+Qed.
+
 (* ---------------------------------------------------------------- following *)
 Lemma follow_eq_rec : forall (F : Rfield) n step pos,
   follow Ro F n step pos = follow_rec Ro (map F (visited Ro F n step pos)) step pos.
